@@ -367,3 +367,9 @@ mod tests {
         }
     }
 }
+
+/// Verification hook (C35): the private size-to-bin function, unchanged.
+#[cfg(feature = "verif")]
+pub(crate) fn verif_mi_bin_from_size(size: usize) -> usize {
+    mi_bin_from_size(size)
+}
